@@ -6,9 +6,14 @@ sys.path.insert(0, os.path.dirname(os.path.abspath(__file__)))
 from mut import Mutant, VERIF
 
 pid = sys.argv[1]
-tiers = sys.argv[2:] or ["quick"]
+args = sys.argv[2:]
+suffix = ""
+if args and args[0].startswith("--round="):
+    suffix = "-" + args[0].split("=", 1)[1]
+    args = args[1:]
+tiers = args or ["quick"]
 wt = f"/tmp/wt-{pid}"
-dst = os.path.join(VERIF, "seeded", pid)
+dst = os.path.join(VERIF, "seeded", pid + suffix)
 os.makedirs(dst, exist_ok=True)
 if os.path.exists(os.path.join(wt, "patch.diff")):
     shutil.copy(os.path.join(wt, "patch.diff"), dst)
